@@ -346,3 +346,11 @@ func writeJSON(path string, v interface{}) {
 		panic(err)
 	}
 }
+
+// Merge appends the obligations of other to r, prefixing their construct keys.
+func (r *RuleResult) Merge(other *RuleResult, prefix string) {
+	for _, ob := range other.Obls {
+		ob.Key = r.Rule + "/" + prefix + ob.Key[len(other.Rule)+1:]
+		r.Obls = append(r.Obls, ob)
+	}
+}
